@@ -228,6 +228,13 @@ Theorem c10_artifact_guard_rejects_directories_and_absent : forall g f base id,
 Proof. exact (fun g f base id => conj (guard_sound_rejects_dir g f base id) (guard_rejects_absent g f base id)). Qed.
 Print Assumptions c10_artifact_guard_rejects_directories_and_absent.
 
+(* the non-empty test of the guard as built is implied by is_file ("" joins to "<blobs>/", and a walk whose last
+   segment is empty never stands at a regular file): the two sound shapes are ONE predicate *)
+Theorem c10_artifact_guard_nonempty_test_redundant : forall f base id,
+  guard_eval GNonEmptyIsFile f base id = guard_eval GIsFile f base id.
+Proof. exact nonempty_test_redundant. Qed.
+Print Assumptions c10_artifact_guard_nonempty_test_redundant.
+
 (* the handoff over the file system (handoff_fs g = Lineage's repaired handoff whose artifact store holds the
    caller's id exactly when guard g lets it pass): an accepted handoff appends [created; lineage], the lineage frame
    records the caller's id, and the id names a regular file of the file system whose bytes read back *)
